@@ -31,6 +31,7 @@ type C12Pkg struct {
 	NewPool      func(h *C12) // creates the shared pool with a factory that calls h.NewStream
 	NewAssembler func() C12Asm
 	PoolConns    func() int
+	Dump         func() // optional: the pool's diagnostic dump, callable at any time from any goroutine
 }
 
 // C12Stream is the harness side of a stream object.
@@ -322,7 +323,7 @@ func RunC12(c *sim.Ctx, pkg *C12Pkg) {
 	}
 	// ---- set up: single-threaded ----
 	s := coop.New(c)
-	h := &C12{S: s, Plan: p, byFlow: map[[2]gopacket.Flow]int{}, nextID: make([]int, nworkers+1), next: next, reborn: make([]atomic.Bool, nconn)}
+	h := &C12{S: s, Plan: p, byFlow: map[[2]gopacket.Flow]int{}, nextID: make([]int, nworkers+2), next: next, reborn: make([]atomic.Bool, nconn)}
 	for _, d := range p.Dirs {
 		if d.Inc == 0 {
 			h.byFlow[[2]gopacket.Flow{d.Net, gopacket.NewFlow(layers.EndpointTCPPort, portBytes(d.Src), portBytes(d.Dst))}] = d.Idx
@@ -401,6 +402,21 @@ func RunC12(c *sim.Ctx, pkg *C12Pkg) {
 					fa.FlushT(T(cut[i]))
 				}
 				w.Rec("call_exit", int64(i), 0, 0, "flush", nil)
+				w.Yield(siteCallEnd)
+			}
+		})
+	}
+	if pkg.Dump != nil && c.Chance(150) {
+		// somebody looks at the pool while it is in use (a debug handler, a
+		// signal handler): a reader of the pool like any other
+		nd := 1 + c.Draw(3)
+		c.Fault("pool_dumped_concurrently")
+		s.Go("dumper", func(w *coop.W) {
+			for i := 0; i < nd; i++ {
+				w.Rec("call_enter", int64(i), 0, 0, "dump", nil)
+				w.Yield(siteCallStart)
+				pkg.Dump()
+				w.Rec("call_exit", int64(i), 0, 0, "dump", nil)
 				w.Yield(siteCallEnd)
 			}
 		})
